@@ -316,8 +316,14 @@ impl<'a, B, OC, SC, L> StorageResolver<'a, B, OC, SC, L> {
         }
         if !seen.insert(r) {
             *repeats += 1;
-            if *repeats > MAX_REPEATED_LOADS {
-                bail!("more than {} repeated loads for one object", MAX_REPEATED_LOADS);
+            #[cfg(not(pdf_rs_pdf_verif))]
+            let bound = MAX_REPEATED_LOADS;
+            #[cfg(pdf_rs_pdf_verif)]
+            let bound = crate::verif::repeat_bound().unwrap_or(MAX_REPEATED_LOADS);
+            if *repeats > bound {
+                #[cfg(pdf_rs_pdf_verif)]
+                crate::verif::hook("budget", r.id);
+                bail!("more than {} repeated loads for one object", bound);
             }
         }
         Ok(())
